@@ -189,6 +189,14 @@ func (c *Ctx) Guard(op string, f func() string) {
 	c.Op(op, out)
 }
 
+// Flush writes the buffered protocol / oracle streams to disk (an area may call it after every
+// case so that a run that is stopped from outside leaves what it found).
+func (c *Ctx) Flush() {
+	for _, w := range []*bufio.Writer{c.ops, c.impl, c.oracle} {
+		_ = w.Flush()
+	}
+}
+
 // Close flushes everything and writes stats.json.
 func (c *Ctx) Close() error {
 	c.endCase()
